@@ -48,6 +48,7 @@ def run(tier):
         chk.count("bessel bodies")
         parity(chk, F, body, n)
         small_series(chk, F, body, n)
+    switch_points(chk, F, bodies)
     purity(chk, F)
     chk.floor("bessel bodies", chk.analysed.get("bessel bodies", 0), 3)
     return chk.finish()
@@ -184,3 +185,66 @@ def purity(chk, F):
     chk.ob("bessel|purity", not bad, "the Bessel routines use their operand only through the generic interface (no access to parts)", "src/bessel.rs",
            found="; ".join(bad[:5]) or "%d bodies, no part access" % n, nontrivial=False)
     chk.count("bessel.rs bodies", n)
+
+
+GRID = [Fr(1, 2), Fr(1), Fr(2), Fr(9, 4), Fr(3), Fr(4), Fr(49, 10), Fr(5), Fr(51, 10), Fr(6), Fr(10), Fr(30)]
+
+
+def arm_kind(p):
+    names = set()
+    for a in p.atoms_deep():
+        if a[0] == "f":
+            names.add(a[1].split("#")[0])
+    if "sin" in names or "cos" in names:
+        return "asymptotic"
+    if "polevl" in names or "p1evl" in names:
+        return "rational"
+    return "series"
+
+
+def switch_points(chk, F, bodies):
+    """sibling rule: J0 and J1 (same Cephes construction) switch between the rational approximation and the asymptotic form at the
+    same bound on |x|; every guard that separates the two compares |x| itself (not x^2, not x) with the bound"""
+    from .common import _poly_from_key_cache as cache
+    kinds = {}
+    for n in (0, 1):
+        body = bodies.get("bessel_j%d" % n)
+        if body is None:
+            continue
+        bad_guard = []
+        for v in GRID:
+            for sgn in (1, -1):
+                x = v * sgn
+                try:
+                    paths = eval_at(F, body, x)
+                except Unsupported as ex:
+                    chk.undecide("bessel|j%d|switch" % n, "unsupported: %s" % ex, body_loc(F, body))
+                    return
+                if len(paths) != 1 or not isinstance(unref(paths[0][1]), Sc):
+                    continue
+                ctx, val = paths[0]
+                kinds[(n, x)] = arm_kind(unref(val).v)
+                env = {XA: x, ("c", "EPS"): EPS_VALUE}
+                for (k, d, b, forced) in ctx.trace:
+                    if k[0] == "cmp" and k[1] in ("<", "<="):
+                        lhs, rhs = cache.get(k[2]), cache.get(k[3])
+                        if lhs is None or rhs is None or rhs.const_value() is None or rhs.const_value() < 1:
+                            continue
+                        lv = eval_poly(lhs, env)
+                        if lv is not None and lv != abs(x):
+                            bad_guard.append("at x = %s the switch compares %s (= %s) with %s instead of |x| = %s" % (
+                                x, resolve_sign(lhs, sgn).show(), lv, rhs.const_value(), abs(x)))
+        chk.ob("bessel|j%d|switch|argument" % n, not bad_guard,
+               "the guard between the rational approximation and the asymptotic form compares |x| with the switch-over bound",
+               body_loc(F, body), found="; ".join(sorted(set(bad_guard))[:3]) or "guards compare |x|", required="|x| <= bound")
+    diff = []
+    for v in GRID:
+        for sgn in (1, -1):
+            x = v * sgn
+            k0, k1 = kinds.get((0, x)), kinds.get((1, x))
+            if k0 and k1 and k0 != k1 and "series" not in (k0, k1):
+                diff.append("x = %s: J0 uses the %s arm, J1 the %s arm" % (x, k0, k1))
+    chk.ob("bessel|switch|siblings", not diff and len(kinds) >= 40,
+           "J0 and J1 use the same kind of approximation (rational for |x| <= bound, asymptotic beyond) at every grid point", "src/bessel.rs",
+           found="; ".join(diff[:4]) or "%d grid evaluations agree" % len(kinds), required="identical arm kinds")
+    chk.count("switch grid evaluations", len(kinds))
